@@ -3,7 +3,7 @@ CONSTANTS
   Script <- ScriptB
   Names = {"a", "b", "c"}
   MaxCliOps = 12
-  FaultKinds = {"trunc"}
+  FaultKinds = {"trunc", "closeout"}
   AllowZZ = FALSE
   AllowEarly = TRUE
   AnyName = FALSE
